@@ -64,30 +64,20 @@ def axioms():
     ax.append(z3.ForAll([t, lo, hi, k], z3.Implies(z3.And(0 <= lo, lo <= hi, 0 <= k, k < hi - lo),
                                                   VT(T_SLICE(t, lo, hi), k) == VT(t, lo + k)),
                         patterns=[VT(T_SLICE(t, lo, hi), k)]))
-    ax.append(z3.ForAll([t, n, lo, hi], z3.Implies(z3.And(WFP(t, n), 0 <= lo, lo <= hi, hi <= n),
-                                                  WFP(T_SLICE(t, lo, hi), hi - lo)),
-                        patterns=[z3.MultiPattern(WFP(t, n), T_SLICE(t, lo, hi))]))
     # A1: concatenation keeps each operand's settings
     ax.append(z3.ForAll([ta, na, tb, k], z3.Implies(z3.And(0 <= k, k < na), VT(T_CAT(ta, na, tb), k) == VT(ta, k)),
                         patterns=[VT(T_CAT(ta, na, tb), k)]))
     ax.append(z3.ForAll([ta, na, tb, k], z3.Implies(k >= na, VT(T_CAT(ta, na, tb), k) == VT(tb, k - na)),
                         patterns=[VT(T_CAT(ta, na, tb), k)]))
-    ax.append(z3.ForAll([ta, na, tb, nb], z3.Implies(z3.And(WFP(ta, na), WFP(tb, nb)), WFP(T_CAT(ta, na, tb), na + nb)),
-                        patterns=[z3.MultiPattern(T_CAT(ta, na, tb), WFP(tb, nb))]))
     # the empty table
     ax.append(z3.ForAll([k], VT(EMPTY, k) == NIL, patterns=[VT(EMPTY, k)]))
-    ax.append(z3.ForAll([n], z3.Implies(n >= 0, WFP(EMPTY, n)), patterns=[WFP(EMPTY, n)]))
     # F3 / M2: outside the range nothing changes, the invariant is kept
     ax.append(z3.ForAll([t, n, s, lo, hi, top, k], z3.Implies(z3.Or(k < lo, k >= hi),
                                                              VT(T_APPLY(t, n, s, lo, hi, top), k) == VT(t, k)),
                         patterns=[VT(T_APPLY(t, n, s, lo, hi, top), k)]))
-    ax.append(z3.ForAll([t, n, s, lo, hi, top], z3.Implies(WFP(t, n), WFP(T_APPLY(t, n, s, lo, hi, top), n)),
-                        patterns=[T_APPLY(t, n, s, lo, hi, top)]))
     ax.append(z3.ForAll([t, n, s, lo, hi, k], z3.Implies(z3.Or(k < lo, k >= hi),
                                                         VT(T_REMOVE(t, n, s, lo, hi), k) == VT(t, k)),
                         patterns=[VT(T_REMOVE(t, n, s, lo, hi), k)]))
-    ax.append(z3.ForAll([t, n, s, lo, hi], z3.Implies(WFP(t, n), WFP(T_REMOVE(t, n, s, lo, hi), n)),
-                        patterns=[T_REMOVE(t, n, s, lo, hi)]))
     return ax
 
 
@@ -100,6 +90,16 @@ def install(c):
     if _AX is None:
         _AX = axioms()
     c.axiom_once('abstract-axioms', lambda: _AX)
+
+
+def wf_fact(c, premise_terms, new_term, new_len):
+    """ground instance of a callee's "invariant preserved" postcondition: premises -> wfp(new, new_len)"""
+    prem = [WFP(t, Z(n)) if t is not EMPTY else z3.BoolVal(True) for t, n in premise_terms]
+    c.assume(z3.Implies(z3.And(*prem) if prem else z3.BoolVal(True), WFP(new_term, Z(new_len))))
+
+
+def empty_wf(c, n):
+    c.assume(WFP(EMPTY, Z(n)))
 
 
 def any_term(v):
@@ -138,6 +138,9 @@ def abstract_ansistring(c, tag, text=None, wf=True, min_len=0):
     T = text if text is not None else c.opaque_text('T' + tag, min_len)
     tb = fresh_table(c, 'tbl_' + tag)
     obj = PObj('AnsiString', {'_fmts': tb, '_s': sym.s_opaque(T)})
+    if not hasattr(c, 'abs_tables'):
+        c.abs_tables = []
+    c.abs_tables.append(tb)
     if wf:
         c.assume(WFP(tb.term, Z(T.len)))
     return obj, {'text': T, 'tbl': tb}
